@@ -20,7 +20,7 @@ CHECKS = {
             "DESIGN.md §4 C02"),
     "C03": ("E2-history-explorer", "model_checking",
             "bounded exhaustive exploration of DDL/DML/reopen histories on the real disk engine, compared step by step with a plain reference model",
-            "All model-valid operation sequences up to the depth bound from two start states are executed on the real engine with reopen cycles; after every reopen tables (rows + definitions) must equal the model and a post-reopen script must succeed.",
+            "All model-valid operation sequences up to the depth bound from four start states (empty; populated; churned; churned and reopened twice) are executed on the real engine with reopen cycles; after every reopen tables (rows + definitions) must equal the model and a post-reopen script must succeed.",
             "Bounded: depth 4 (quick) / 5 (thorough); two tables; views/indexes/functions need not survive but must not break reopening; single session.",
             "DESIGN.md §4 C03"),
     "C04": ("E3-fault-enumerators", "fault_enumeration",
@@ -56,7 +56,7 @@ CHECKS = {
     "C10": ("E4-gate-scheduler", "model_checking",
             "stateless model checking of the implementation (preemption-bounded schedule exploration at yield points) with a brute-force serializability oracle over a reference model",
             "For each multi-session workload every schedule within the preemption bound is executed; the acknowledged statements must admit a serial order (respecting session order) that reproduces every observed result and the final tables on the reference model; no session or task panics, no deadlock, shutdown and reopen succeed and agree.",
-            "Bounded: 30 (quick) / 32 workloads incl. views / indexes racing CREATE TABLE and two DELETEs of the same / of different rows; 13 of them also on the memory engine (gates of Database::run only); 2 sessions (quick) / up to 3 (thorough), <= 2 statements each, preemption bound 2/3. The clause about free-running multi-threaded runs is NOT decided (gate interleavings on a current-thread runtime only).",
+            "Bounded: 30 (quick) / 32 workloads incl. views / indexes racing CREATE TABLE and two DELETEs of the same / of different rows; 13 of them also on the memory engine (gates of Database::run only); in the two-DELETE workloads the point at which each transaction pins its snapshot (gate txn.start) is a scheduling choice; 2 sessions (quick) / up to 3 (thorough), <= 2 statements each, preemption bound 2/3. The clause about free-running multi-threaded runs is NOT decided (gate interleavings on a current-thread runtime only).",
             "DESIGN.md §3 E4, §4 C10"),
     "C13": ("E1-small-scope", "exploration",
             "exhaustive small-scope enumeration of key-range predicates x table layouts, against rows computed from the known contents (and the unoptimised full scan)",
